@@ -133,9 +133,13 @@ impl Ruleset {
                     rule.enabled = prev_rule.enabled;
                 }
 
-                // `m.rule.master` should always be the rule with the highest priority, so we insert
-                // this one at most at the second place.
-                let default_position = 1;
+                // `m.rule.master` should always be the rule with the highest priority, so when it
+                // is there we insert this one at the second place.
+                let default_position = usize::from(
+                    self.override_
+                        .first()
+                        .is_some_and(|r| r.rule_id == PredefinedOverrideRuleId::Master.as_str()),
+                );
 
                 insert_and_move_rule(&mut self.override_, rule, default_position, after, before)
             }
@@ -944,7 +948,8 @@ where
 
     let (from, replaced) = set.replace_full(rule);
 
-    let mut to = default_position;
+    // The default position cannot be behind the end of the set.
+    let mut to = default_position.min(set.len() - 1);
 
     if let Some(idx) = after_idx {
         to = idx + 1;
